@@ -19,6 +19,35 @@ fn val(salt: u32, i: usize) -> u32 {
     salt.wrapping_add((i as u32).wrapping_mul(0x01000193))
 }
 
+/// `map` into an element type of another size / alignment, through every receiver form (an implementation that reuses the source's storage
+/// or block has to pick a direction; the caller's function must still see a[0], a[1], ... in that order and result i must land in slot i)
+fn map_via<U, N: ArrayLength, F: FnMut(u32) -> U>(a: GenericArray<u32, N>, form: usize, mut f: F) -> GenericArray<U, N> {
+    match form {
+        0 => a.map(f),
+        1 => (&a).map(|x| f(*x)),
+        2 => { let mut a = a; (&mut a).map(|x| f(*x)) }
+        _ => { let b: Box<GenericArray<u32, N>> = Box::new(a); *b.map(f) }
+    }
+}
+pub fn resizing_map<T, N: ArrayLength, const R: usize>() {
+    let n = N::USIZE;
+    let salt = any_u32();
+    let a: GenericArray<u32, N> = GenericArray::generate(|i| val(salt, i));
+    let form = any_upto(3);
+    let shape = any_upto(3);
+    kani_cover!(form == 3 && shape == 2);
+    kani_cover!(form == 0 && shape == 0);
+    reset_log();
+    let seen = |x: u32| log(x.wrapping_sub(salt).wrapping_mul(0x359c449b));
+    let i = if n > 0 { any_upto(n - 1) } else { 0 };
+    match shape {
+        0 => { let m: GenericArray<u8, N> = map_via(a, form, |x| { seen(x); x as u8 }); log_is_identity(n); if n > 0 { assert!(m[i] == val(salt, i) as u8, "shrinking map: result at the wrong index"); } }
+        1 => { let m: GenericArray<u64, N> = map_via(a, form, |x| { seen(x); (x as u64) << 3 }); log_is_identity(n); if n > 0 { assert!(m[i] == (val(salt, i) as u64) << 3, "widening map: result at the wrong index"); } }
+        2 => { let m: GenericArray<[u32; 2], N> = map_via(a, form, |x| { seen(x); [x, !x] }); log_is_identity(n); if n > 0 { assert!(m[i][0] == val(salt, i) && m[i][1] == !val(salt, i), "growing map (same alignment): result at the wrong index"); } }
+        _ => { let m: GenericArray<[u8; 3], N> = map_via(a, form, |x| { seen(x); [x as u8, 1, 2] }); log_is_identity(n); if n > 0 { assert!(m[i][0] == val(salt, i) as u8, "map into a smaller alignment: result at the wrong index"); } }
+    }
+}
+
 pub fn generate_map_fold<T, N: ArrayLength, const R: usize>() {
     let n = N::USIZE;
     let salt = any_u32();
@@ -272,6 +301,7 @@ macro_rules! c08_lattice {
 pub mod q {
     c08_lattice! { generate_map_fold; n0: U0, 3; n1: U1, 4; n2: U2, 5; n3: U3, 6; n4: U4, 7; }
     c08_lattice! { zip_forms; n0: U0, 3; n1: U1, 4; n3: U3, 6; n4: U4, 7; }
+    c08_lattice! { resizing_map; n0: U0, 3; n2: U2, 5; n3: U3, 6; }
     c08_lattice! { zip_map_tracked; n0: U0, 3; n2: U2, 5; n4: U4, 7; }
     c08_lattice! { clone_default; n0: U0, 3; n1: U1, 4; n4: U4, 7; }
     c08_lattice! { zero_sized_generators; n0: U0, 3; n1: U1, 4; n3: U3, 6; }
@@ -281,6 +311,7 @@ pub mod q {
 pub mod t {
     c08_lattice! { generate_map_fold; n5: U5, 8; n6: U6, 9; n7: U7, 10; n8: U8, 11; }
     c08_lattice! { zip_forms; n2: U2, 5; n5: U5, 8; n8: U8, 11; }
+    c08_lattice! { resizing_map; n1: U1, 4; n4: U4, 7; n8: U8, 11; }
     c08_lattice! { zip_map_tracked; n1: U1, 4; n3: U3, 6; n5: U5, 8; n8: U8, 11; }
     c08_lattice! { clone_default; n2: U2, 5; n3: U3, 6; n8: U8, 11; }
     c08_lattice! { zero_sized_generators; n2: U2, 5; n5: U5, 8; n8: U8, 11; }
